@@ -33,3 +33,6 @@ Definition aug_asset (st : store) (r : ref) (k : Z) (f : Z -> Z) : pres store :=
               | Some _ => POk (upd_agent r (fun a => a <| a_assets := map (fun kv => if fst kv =? k then (fst kv, f (snd kv)) else kv) (a_assets a) |>) st)
               end
   end.
+
+(* a / b on floats read as rationals: ZeroDivisionError when the divisor is zero *)
+Definition pdiv (a b : Q) : pres Q := if qeqb b (0#1) then PErr PyZeroDivisionError else POk (qdiv a b).
